@@ -66,6 +66,15 @@ type c17Harness struct {
 
 func c17URL(a string) string { return "http://" + a }
 
+func slicesContains(l []string, x string) bool {
+	for _, y := range l {
+		if y == x {
+			return true
+		}
+	}
+	return false
+}
+
 func (h *c17Harness) Reset(init map[string]any) error {
 	var set []string
 	for _, a := range init["S"].([]any) {
@@ -73,6 +82,8 @@ func (h *c17Harness) Reset(init map[string]any) error {
 	}
 	sort.Strings(set)
 	view, _ := init["view"].(map[string]any)
+	hist, _ := init["hist"].(map[string]any)
+	universe := []string{"a:1", "b:1", "c:1", "d:1", "e:1", "f:1"}
 	h.nodes, h.order = map[string]*c17Node{}, set
 	h.landed, h.count = map[string]map[string]bool{}, map[string]int{}
 	h.hops, h.selfFwd, h.outside, h.agree = 0, 0, 0, true
@@ -90,9 +101,27 @@ func (h *c17Harness) Reset(init map[string]any) error {
 		case "rotated":
 			list = append(list[1:], list[0])
 		}
-		sh := &sharder.DeterministicSharder{Config: conf, Logger: &logger.NullLogger{}, Peers: peer.NewMockPeers(list, c17URL(a))}
+		// the list this node saw BEFORE it learned the current one (membership history)
+		first := list
+		switch hist[a] {
+		case "grew":
+			first = []string{c17URL(a)}
+		case "shrank":
+			first = nil
+			for _, x := range universe {
+				first = append(first, c17URL(x))
+			}
+			if !slicesContains(first, c17URL(a)) {
+				first = append(first, c17URL(a))
+			}
+		}
+		mp := peer.NewMockPeers(first, c17URL(a))
+		sh := &sharder.DeterministicSharder{Config: conf, Logger: &logger.NullLogger{}, Peers: mp}
 		if err := sh.Start(); err != nil {
 			return err
+		}
+		if hist[a] == "grew" || hist[a] == "shrank" {
+			mp.UpdatePeers(list) // fires the sharder's reload callback synchronously
 		}
 		met := &metrics.MockMetrics{}
 		met.Start()
